@@ -2973,7 +2973,8 @@ func (dsc *dataStoreCommand) setMove(source, destination, memberName string) (ou
 		return
 	}
 
-	added, wrongType := dsc.setAddWorkerUnlocked(destination, []string{memberName}, SET_NOT_EXIST)
+	// the destination may hold the member already: the member is moved (and the reply is 1) all the same
+	_, wrongType := dsc.setAddWorkerUnlocked(destination, []string{memberName}, SET_NOT_EXIST)
 	if wrongType {
 		output.data = wrongTypeError
 		return
@@ -2985,7 +2986,7 @@ func (dsc *dataStoreCommand) setMove(source, destination, memberName string) (ou
 		dsc.ds.data.remove(source)
 	}
 
-	output.data = respInt(added)
+	output.data = respInt(1)
 	return
 }
 
